@@ -5,10 +5,14 @@ import (
 	"encoding/binary"
 	"errors"
 	"fmt"
+	"runtime"
 	"strings"
 	"sync"
+	"sync/atomic"
 	"testing/synctest"
 	"time"
+
+	"github.com/gotd/log"
 
 	"github.com/gotd/td/bin"
 	"github.com/gotd/td/rpc"
@@ -53,9 +57,16 @@ type mcall struct {
 
 	sendScript []string // outcome of the k-th transmission: ok | fail | block
 	sends      int
-	firstSend  string // "", ok, fail, block
+	firstSend  string   // "", ok, fail, block
+	outcomes   []string // outcome of every transmission
 	drops      int
 	decodes    int
+
+	responded    bool // a result or an error for this id was issued while this attempt was the latest
+	cancelIssued bool
+	attempt      int  // 0 = first Do with this message id; >0 = issued again with the same id
+	mustComplete int  // log index of a valid result issued while this call was pending and undisturbed (-1: none)
+	restarted    bool // a later attempt with the same id exists
 }
 
 type machine struct {
@@ -76,6 +87,9 @@ type machine struct {
 	maxRetries    int
 	classes       map[string]bool
 	steps         []string
+	connFirst     bool
+	disturb       int // number of root actions other than releases so far
+	armed         atomic.Bool
 }
 
 func (m *machine) ev(kind string, call int, detail string) int {
@@ -144,6 +158,7 @@ func (m *machine) send(ctx context.Context, msgID int64, seqNo int32, in bin.Enc
 	if k == 0 {
 		c.firstSend = outcome
 	}
+	c.outcomes = append(c.outcomes, outcome)
 	m.mu.Unlock()
 	m.ev("send", c.idx, fmt.Sprintf("n=%d id=%d seq=%d body=%x -> %s", k, msgID, seqNo, b.Buf, outcome))
 	switch outcome {
@@ -172,23 +187,59 @@ func (m *machine) drop(req rpc.Request) error {
 	return nil
 }
 
+// schedLogger makes every log record of the engine a scheduling point the
+// harness owns ("log:<message>", enabled as a family by the hook name "log"):
+// a goroutine can be stopped wherever the engine reports something, without
+// any change to the engine. Records written while the engine mutex is held
+// (NotifyAcks, waitAck) are not parked at: a goroutine parked under a mutex
+// leaves its contenders blocked in a way the bubble cannot see through.
+type schedLogger struct{ m *machine }
+
+func (l schedLogger) Enabled(context.Context, log.Level) bool { return true }
+
+func (l schedLogger) Log(_ context.Context, _ log.Level, msg string, attrs ...log.Attr) {
+	if !l.m.armed.Load() {
+		return // records written by the constructor, on the root goroutine
+	}
+	var pcs [12]uintptr
+	n := runtime.Callers(2, pcs[:])
+	frames := runtime.CallersFrames(pcs[:n])
+	for {
+		f, more := frames.Next()
+		if strings.HasSuffix(f.Function, ".NotifyAcks") || strings.HasSuffix(f.Function, ".waitAck") {
+			return
+		}
+		if !more {
+			break
+		}
+	}
+	l.m.sched.Hook("log:"+msg, 0)
+}
+
 func newMachine(t *rapid.T, hooks []string, ncalls int) *machine {
 	m := &machine{t: t, t0: time.Now(), byID: map[int64]*mcall{}, closed: make(chan struct{}), classes: map[string]bool{}}
 	m.sched = pbt.NewSched(hooks...)
 	m.retry = time.Duration(rapid.SampledFrom([]int{1, 10}).Draw(t, "retrySec")) * time.Second
 	m.maxRetries = rapid.IntRange(1, 3).Draw(t, "maxRetries")
-	m.eng = rpc.New(m.send, rpc.Options{RetryInterval: m.retry, MaxRetries: m.maxRetries, DropHandler: m.drop})
+	m.connFirst = rapid.Bool().Draw(t, "connFirst")
+	m.eng = rpc.New(m.send, rpc.Options{RetryInterval: m.retry, MaxRetries: m.maxRetries, DropHandler: m.drop, Logger: schedLogger{m}})
 	for i := 0; i < ncalls; i++ {
-		c := &mcall{idx: i, id: int64(1000 + 4*i), seqNo: int32(2*i + 1)}
+		c := &mcall{idx: i, id: int64(1000 + 4*i), seqNo: int32(2*i + 1), mustComplete: -1}
 		c.body = []byte(fmt.Sprintf("req-%d..", i))[:8]
 		c.ctx, c.cancel = context.WithCancel(context.Background())
 		c.rpcErr = fmt.Errorf("rpc error for call %d", i)
 		first := rapid.SampledFrom([]string{"ok", "ok", "ok", "ok", "fail", "block"}).Draw(t, "firstSend")
 		c.sendScript = []string{first}
+		// retransmissions usually go through; sometimes one fails or is stuck in
+		// the transport when something else happens
+		for k := 0; k < 3; k++ {
+			c.sendScript = append(c.sendScript, rapid.SampledFrom([]string{"ok", "ok", "ok", "ok", "ok", "fail", "block", "block"}).Draw(t, "resend"))
+		}
 		m.calls = append(m.calls, c)
 		m.byID[c.id] = c
 	}
 	rpc.VerifSetHook(m.sched.Hook)
+	m.armed.Store(true)
 	return m
 }
 
@@ -220,6 +271,37 @@ func (m *machine) step() {
 			acts = append(acts, action{fmt.Sprintf("start(%d)", c.idx), func() { m.startCall(c) }})
 			continue
 		}
+		if c.restarted {
+			continue // responses and cancellations address the latest invocation of a message id
+		}
+		m.mu.Lock()
+		onWire := c.sends > 0
+		m.mu.Unlock()
+		if c.returned && c.attempt == 0 && !m.closeIssued && c.err != nil && errors.Is(c.err, c.rpcErr) {
+			// the caller issues the same request again under the same message id, as
+			// mtproto.Conn.Invoke does after bad_server_salt
+			acts = append(acts, action{fmt.Sprintf("reissue(%d)", c.idx), func() {
+				n := &mcall{idx: len(m.calls), id: c.id, seqNo: c.seqNo, body: c.body, attempt: c.attempt + 1, mustComplete: -1,
+					sendScript: []string{"ok"}, rpcErr: fmt.Errorf("rpc error for call %d (second invocation of id %d)", len(m.calls), c.id)}
+				n.ctx, n.cancel = context.WithCancel(context.Background())
+				c.restarted = true
+				m.calls = append(m.calls, n)
+				m.byID[c.id] = n
+				m.classes["same-id-reissued"] = true
+				m.startCall(n)
+			}})
+		}
+		if !onWire {
+			// the server answers what it has received: no ack, result or error for a
+			// request whose first transmission has not happened yet (the caller may
+			// still be cancelled)
+			acts = append(acts, action{fmt.Sprintf("cancel(%d)", c.idx), func() {
+				c.cancelIssued = true
+				m.ev("cancel-issued", c.idx, "")
+				c.cancel()
+			}})
+			continue
+		}
 		acts = append(acts,
 			action{fmt.Sprintf("ack(%d)", c.idx), func() {
 				n := m.ev("ack-issued", c.idx, "")
@@ -230,7 +312,7 @@ func (m *machine) step() {
 				// waits for (unknown, or of calls that already completed) around this one
 				batch := []int64{777001}
 				for _, o := range m.calls {
-					if o != c && o.started && o.returned {
+					if o != c && o.started && o.returned && !o.restarted && o.id != c.id {
 						batch = append(batch, o.id)
 					}
 				}
@@ -240,13 +322,31 @@ func (m *machine) step() {
 				go func() { m.eng.NotifyAcks(batch); m.ev("ack-delivered", c.idx, fmt.Sprint(n)) }()
 			}},
 			action{fmt.Sprintf("result(%d)", c.idx), func() {
-				m.ev("result-issued", c.idx, "valid")
+				at := m.ev("result-issued", c.idx, "valid")
+				// the result finds the call pending and undisturbed: sent (all
+				// transmissions went through), not answered, cancelled or closed
+				clean := !c.returned && !c.responded && !c.cancelIssued && !m.closeIssued && c.firstSend == "ok"
+				for _, o := range c.outcomes {
+					if o != "ok" {
+						clean = false
+					}
+				}
+				c.responded = true
+				mark := m.disturb
 				go func() {
 					_ = m.eng.NotifyResult(c.id, &bin.Buffer{Buf: resultPayload(c.id, true)})
 					m.ev("notify-done", c.idx, "")
+					m.mu.Lock()
+					if clean && m.disturb == mark {
+						// nothing but releases of parked goroutines happened while the
+						// result was being delivered: it must have completed the call
+						c.mustComplete = at
+					}
+					m.mu.Unlock()
 				}()
 			}},
 			action{fmt.Sprintf("badresult(%d)", c.idx), func() {
+				c.responded = true
 				m.ev("result-issued", c.idx, "bad")
 				go func() {
 					_ = m.eng.NotifyResult(c.id, &bin.Buffer{Buf: resultPayload(c.id, false)})
@@ -254,10 +354,12 @@ func (m *machine) step() {
 				}()
 			}},
 			action{fmt.Sprintf("error(%d)", c.idx), func() {
+				c.responded = true
 				m.ev("error-issued", c.idx, "")
 				go func() { m.eng.NotifyError(c.id, c.rpcErr); m.ev("notify-done", c.idx, "") }()
 			}},
 			action{fmt.Sprintf("cancel(%d)", c.idx), func() {
+				c.cancelIssued = true
 				m.ev("cancel-issued", c.idx, "")
 				c.cancel()
 			}},
@@ -279,15 +381,29 @@ func (m *machine) step() {
 	}
 	a := acts[rapid.IntRange(0, len(acts)-1).Draw(t, "action")]
 	m.note("%s", a.name)
+	if !strings.HasPrefix(a.name, "release:") {
+		m.mu.Lock()
+		m.disturb++
+		m.mu.Unlock()
+	}
 	a.do()
 	synctest.Wait()
 }
 
 func (m *machine) forceClose() {
+	m.mu.Lock()
+	m.disturb++
+	m.mu.Unlock()
 	m.closeIssued = true
 	m.closeAt = time.Since(m.t0)
-	m.ev("close-issued", -1, "")
-	close(m.closed)
+	m.ev("close-issued", -1, fmt.Sprintf("connFirst=%v", m.connFirst))
+	// The connection and the engine go down together, in either order: with
+	// connFirst a stuck transmission fails before the engine knows it is being
+	// closed (a plain write error), otherwise the engine is closed first and the
+	// stuck transmission fails afterwards.
+	if m.connFirst {
+		close(m.closed)
+	}
 	go func() {
 		m.eng.ForceClose()
 		m.mu.Lock()
@@ -295,6 +411,10 @@ func (m *machine) forceClose() {
 		m.mu.Unlock()
 		m.ev("close-returned", -1, "")
 	}()
+	if !m.connFirst {
+		synctest.Wait()
+		close(m.closed)
+	}
 }
 
 // drain releases every parked goroutine until the system is quiescent.
